@@ -7,6 +7,7 @@ repo = sys.argv[1] if len(sys.argv) > 1 else "/repo"
 base = json.load(open("/root/.vp/BASELINE.json"))
 env = {k: v for k, v in os.environ.items() if k != "LIQUID_VERIF"}
 env["PYTHONDONTWRITEBYTECODE"] = "1"
+env["PYTHONPATH"] = repo
 with tempfile.TemporaryDirectory() as d:
     x = os.path.join(d, "j.xml")
     p = subprocess.run(["/venv/bin/python", "-m", "pytest", "-ra", "-q", "-p", "no:cacheprovider", "--timeout=900",
